@@ -148,6 +148,15 @@ class ModelData:
             model parameters are collected into the kwargs dictionary
         """
         idx = kwargs['idx']
+
+        # refuse the device before anything is registered: a rejected `add` must leave the model as it was
+        for name, instance in self.params.items():
+            if name == 'idx' or not instance.get_property('mandatory'):
+                continue
+            value = kwargs.get(name, None)
+            if value is None or (isinstance(value, float) and np.isnan(value)):
+                raise ValueError(f'Mandatory parameter {self.class_name}.{name} is missing')
+
         self.uid[idx] = self.n
         self.n += 1
         if "name" in self.params:
